@@ -96,9 +96,12 @@ def rand_scalar(rng):
 
 
 def _has_uns(rx):
+    """constructs the generator is documented not to support (it refuses them loudly: C09)"""
     k = rx["r"]
     if k == "uns":
         return True
+    if k == "class":
+        return any(i.get("ci") == "cat" and i["cat"] in ("space", "nspace", "ndigit", "nword") for i in rx["items"])
     if k in ("group", "rep"):
         return _has_uns(rx["body"])
     if k == "alt":
